@@ -7,7 +7,10 @@
 (* Written from the property text and the package documentation.            *)
 EXTENDS ModeFile, Calendar, FiniteSets
 
-ActP(op, a, p, n1, n2, ok) == [op |-> op, a |-> a, p |-> p, n1 |-> n1, n2 |-> n2, ok |-> ok]
+(* an action: op, word a, padding p and time zone tz of a SetMode argument (tz = "" UTC, "east" / "west": the same instant *)
+(* given in a zone far ahead of / behind UTC), two numbers, and whether the call succeeded                               *)
+ActZ(op, a, p, tz, n1, n2, ok) == [op |-> op, a |-> a, p |-> p, tz |-> tz, n1 |-> n1, n2 |-> n2, ok |-> ok]
+ActP(op, a, p, n1, n2, ok) == ActZ(op, a, p, "", n1, n2, ok)
 Act(op, a, n1, n2, ok) == ActP(op, a, "", n1, n2, ok)
 
 (* ---- time: instants are <<day, seconds of the day>> ----------------------- *)
@@ -63,19 +66,25 @@ Gov(s) == IF s.intent = NoIntent THEN s.modeFile ELSE s.intent
 
 (* One run of the uploader (number runNo) starting at the state's instant,    *)
 (* with X = x for every report it makes and a downloaded config whose         *)
-(* SampleRate is rate; the server acknowledges every request.  Weeks that     *)
-(* already have a report of any kind only lose their finished count files     *)
-(* (the report exists; see C07).                                              *)
+(* SampleRate is rate; the server acknowledges every request.  A week whose   *)
+(* finished count files hold no counter at all gets no report and keeps its   *)
+(* files, unless a report of it is already uploaded or waiting to be sent     *)
+(* (Listed).  Weeks with data that already have a report of any kind only     *)
+(* lose their finished count files (the report exists; see C07).              *)
+HasData(s, fs) == \E f \in fs : s.files[f] > 0
+Listed(mf, wk) == ExactlyOn(mf) /\ (OptIn(mf) # NoDate => OptIn(mf) < wk)
 RunStep(s, x, rate, runNo) ==
     LET fin == FinishedFiles(DOMAIN s.files, s.day, s.tod)
         weeks == {f.e : f \in fin}
-        fresh == {wk \in weeks : wk \notin s.local \cup s.ready \cup s.uploaded}
+        full == {wk \in weeks : HasData(s, DataOf(fin, wk))}
+        gone == full \cup {wk \in weeks : wk \in s.uploaded \/ (wk \in s.ready /\ Listed(Gov(s), wk))}
+        fresh == {wk \in full : wk \notin s.local \cup s.ready \cup s.uploaded}
         newReady == {wk \in fresh : Uploadable(Gov(s), DataOf(fin, wk), wk, x, rate, s.day, s.tod)}
         ready1 == s.ready \cup newReady
         toSend == {wk \in ready1 : Sendable(Gov(s), wk, s.day)}
         posted == toSend \ s.uploaded
     IN IF EffMode(Gov(s)) = "off" THEN s
-       ELSE [s EXCEPT !.files = Restrict(s.files, (DOMAIN s.files) \ fin),
+       ELSE [s EXCEPT !.files = Restrict(s.files, (DOMAIN s.files) \ {f \in fin : f.e \in gone}),
                       !.local = s.local \cup fresh,
                       !.ready = ready1 \ toSend,
                       !.uploaded = s.uploaded \cup posted,
@@ -131,7 +140,7 @@ MadeUploadable(s, t) == (t.ready \cup t.uploaded \cup {r.wk : r \in t.requests \
                           \ (s.ready \cup s.uploaded)
 (* one condition of the sentence at a time, so that a verdict names it         *)
 U_Cond(which, a, s, wk) ==
-    LET data == DataOf(DOMAIN s.files, wk) IN
+    LET data == {f \in DataOf(DOMAIN s.files, wk) : s.files[f] > 0} IN      \* the files that hold something
     CASE which = "data"  -> data # {}
       [] which = "age"   -> wk <= s.day /\ ~AgeOver21(wk, s.day, s.tod)    \* ended, and no more than 21 days before the run
       [] which = "rate"  -> (a.n2 > 0 => a.n1 <= a.n2)                     \* X not above a positive sample rate
@@ -169,13 +178,17 @@ C_OtherBehavesLocal(a, s, t) ==
     (a.op = "run" /\ EffMode(Gov(s)) = "local") =>
         /\ t.requests = s.requests
         /\ \A f \in FinishedFiles(DOMAIN s.files, s.day, s.tod) :
-              f.e \notin (s.local \cup s.ready \cup s.uploaded) => f.e \in t.local
+              (s.files[f] > 0 /\ f.e \notin (s.local \cup s.ready \cup s.uploaded)) => f.e \in t.local
 
 (* "setting a valid mode then reading it back yields the same mode and date     *)
 (* while an invalid mode is rejected leaving the file unchanged"                *)
+(* the date: the UTC date of the instant; when the instant was given in another *)
+(* zone the documentation does not say which calendar counts, so the date in    *)
+(* that zone (a day earlier or later) is not a violation                        *)
+DateOK(a, d) == IF a.tz = "" THEN d = a.n1 ELSE d \in {a.n1 - 1, a.n1, a.n1 + 1}
 C_SetGet(a, s, t) ==
     a.op = "set" =>
-       LET accepted == a.ok /\ ReadBack(t.modeFile) = <<a.a, a.n1>>
+       LET accepted == a.ok /\ ReadBack(t.modeFile)[1] = a.a /\ DateOK(a, ReadBack(t.modeFile)[2])
            rejected == ~a.ok /\ t.modeFile = s.modeFile
        IN IF a.a \notin ValidModes THEN rejected
           ELSE IF a.p = "" THEN accepted
